@@ -24,6 +24,7 @@ func runC10(r *Run) {
 		r.Infra("cannot read the Rust reference constants: %v", err)
 		return
 	}
+	concreteBN = kc // replays evaluate the reference with the real permutation
 	var cases []fieldCase
 	// ---- the permutation against poseidon_bn128.rs ------------------------------------------------
 	cases = append(cases, fieldCase{name: "BN254.Poseidon", bigMod: true, termCuts: true, bound: "all four state elements in F_r (symbolic)", build: func(fc *fctx) ([]frontend.Variable, []*ref.N) {
@@ -59,6 +60,40 @@ func runC10(r *Run) {
 					rin = append(rin, rv)
 				}
 				return []frontend.Variable{f(chip, in)}, []*ref.N{g(fc.rb, fc.rb.BNPermUF(), rin)}
+			}})
+		}
+		mk("BN254.HashNoPad", (*poseidon.BN254Chip).HashNoPad, (*ref.B).BNHashNoPad)
+		mk("BN254.HashOrNoop", (*poseidon.BN254Chip).HashOrNoop, (*ref.B).BNHashOrNoop)
+	}
+	// the same variable at several positions, and read again after the call: packing accumulates with
+	// api.MulAcc, which may rewrite its first operand in place (alias mode follows gnark's R1CS builder there)
+	for _, pat := range [][]int{{0, 0}, {0, 0, 0, 1}, {0, 0, 1, 2}, {0, 1, 0, 2}, {0, 1, 1, 2}, {0, 1, 2, 0, 0, 3}} {
+		pat := pat
+		mk := func(name string, f func(c *poseidon.BN254Chip, in []gl.Variable) poseidon.BN254HashOut, g func(b *ref.B, p ref.BNPerm, in []*ref.N) *ref.N) {
+			cases = append(cases, fieldCase{name: fmt.Sprintf("%s[repeated inputs %v]", name, pat), bigMod: true, termCuts: true, bound: fmt.Sprintf("canonical Goldilocks inputs (symbolic) placed as %v, read again after the call; permutation uninterpreted", pat), build: func(fc *fctx) ([]frontend.Variable, []*ref.N) {
+				chip := poseidon.NewBN254Chip(fc.api)
+				vs := map[int]gl.Variable{}
+				rvs := map[int]*ref.N{}
+				var in []gl.Variable
+				var rin []*ref.N
+				top := 0
+				for _, k := range pat {
+					if _, ok := vs[k]; !ok {
+						vs[k], rvs[k] = fc.glIn(fmt.Sprintf("x%d", k))
+					}
+					if k > top {
+						top = k
+					}
+					in = append(in, vs[k])
+					rin = append(rin, rvs[k])
+				}
+				outs := []frontend.Variable{f(chip, in)}
+				refs := []*ref.N{g(fc.rb, fc.rb.BNPermUF(), rin)}
+				for k := 0; k <= top; k++ {
+					outs = append(outs, vs[k].Limb)
+					refs = append(refs, rvs[k])
+				}
+				return outs, refs
 			}})
 		}
 		mk("BN254.HashNoPad", (*poseidon.BN254Chip).HashNoPad, (*ref.B).BNHashNoPad)
